@@ -26,7 +26,7 @@ type In struct {
 //	A  P N M   v1: AddInput(new channel of capacity N, P), producer gets M items
 //	X  P       v1: RemoveInput(P)
 //	G          v1: GracefulStop()
-//	S          v1: Stop()
+//	S  N       v1: Stop(); N=2: two overlapping Stop() calls from two goroutines
 //	K          v1: cancel the context
 type Op struct {
 	K     string `json:"op"`
@@ -89,7 +89,8 @@ type Snap struct {
 	Terminated bool
 	GStopAsked bool
 	Epilogue   bool
-	Queued     int // releases issued whose helper has not completed (discipline has not taken them)
+	Queued     int    // releases issued whose helper has not completed (discipline has not taken them)
+	Configured []uint // priorities registered at this moment (v1: after the additions and removals that have returned)
 }
 
 // DivViolation is a broken divider-call contract.
